@@ -9,6 +9,7 @@ from . import common
 ENGINES = {}
 for _p in ("C01", "C02", "C03", "C04", "C05", "C15"):
     ENGINES[_p] = "engine_broker"
+ENGINES["C06"] = "engine_market"
 
 
 def main(argv=None):
